@@ -547,6 +547,19 @@ pub fn process<I: BufRead, O: Write>(
                     }
                     let buf = &caps[3];
                     let mut value = context.replace_all(buf);
+                    // A body that still names its own macro after expansion (directly or through
+                    // earlier macros) would make replace_all substitute forever
+                    if Regex::new(&format!("\\b{}\\b", mcro))
+                        .unwrap()
+                        .is_match(&value)
+                    {
+                        return Err(Error::Syntax {
+                            filename: filename.clone(),
+                            included_in: included_in.clone(),
+                            line,
+                            msg: format!("Macro {} is defined recursively", mcro),
+                        });
+                    }
                     if caps.get(2).is_none() {
                         context.define(mcro, value);
                     } else {
